@@ -9,6 +9,9 @@ open IstioModel.Wire
 
 def sec : Int := 1000000000
 
+/-- nominal time that passes per operation (the real harness needs far less) -/
+def tick : Int := 100000000
+
 /-- fields joined by '|' (each wire-encoded) -/
 def decFields (s : String) : List String := (s.splitOn "|").map dec
 
@@ -96,7 +99,7 @@ def showIssue (srv : Server) (req : Request) (r : Resp CertData) : String :=
       let t := d.tmpl
       let clamp := srv.ca.bundle.signerNotAfter == some t.notAfter
       let capped := match srv.ca.bundle.chain with
-        | c :: _ => decide (0 ≤ t.notAfter - c.notAfter ∧ t.notAfter - c.notAfter ≤ 60 * sec)
+        | c :: _ => decide (0 ≤ t.notAfter - c.notAfter ∧ t.notAfter - c.notAfter ≤ 10 * sec)
         | [] => false
       let life := if clamp then "clamp" else if capped then "chaincap" else toString ((t.notAfter - t.notBefore) / sec - 120)
       let le := match srv.ca.bundle.signerNotAfter with
@@ -104,7 +107,7 @@ def showIssue (srv : Server) (req : Request) (r : Resp CertData) : String :=
         | none => false
       let san := if t.san.isEmpty then "-" else ",".intercalate (t.san.map showSan)
       let subj := (if t.subjectCN.isEmpty then [] else ["2.5.4.3=" ++ t.subjectCN]) ++ t.subjectOther
-      s!"ok san={san} subj={encList subj} sig=1 ca={boolTok t.isCA} bc={boolTok t.bcValid} key={boolTok (d.pubKey == req.csr.pubKey)} ku={t.keyUsage} eku={encList (t.extKeyUsage.map ekuOID)} xext={encList t.otherExts} life={life} le={boolTok le} chain={chain.length} mid=1 root={boolTok srv.ca.bundle.hasRoot}"
+      s!"ok san={san} crit={boolTok t.sanCritical} subj={encList subj} sig=1 ca={boolTok t.isCA} bc={boolTok t.bcValid} key={boolTok (d.pubKey == req.csr.pubKey)} ku={t.keyUsage} eku={encList (t.extKeyUsage.map ekuOID)} xext={encList t.otherExts} life={life} le={boolTok le} chain={chain.length} mid=1 root={boolTok srv.ca.bundle.hasRoot}"
     | _ => "ok-without-leaf"
 
 def stepIssue (d : DState) (toks : List String) : DState × String :=
@@ -116,8 +119,8 @@ def stepIssue (d : DState) (toks : List String) : DState × String :=
         (fun l => { name := "c", notAfter := d.clock + parseInt l * sec }),
       hasRoot := root == "1" }
     match newIstioCA b (parseInt dflt * sec) (parseInt mx * sec) d.clock with
-    | none => ({ d with ca := none, clock := d.clock + sec }, "ca-err")
-    | some ca => ({ d with ca := some ca, clock := d.clock + sec }, "ca-ok")
+    | none => ({ d with ca := none, clock := d.clock + tick }, "ca-err")
+    | some ca => ({ d with ca := some ca, clock := d.clock + tick }, "ca-ok")
   | ["pod", "add", cl, pod] =>
     let p := podOfFields (decFields (dec pod))
     let cs := onSlot (dec cl) (onCurPods (fun ps => ps ++ [p])) d.clusters
@@ -157,7 +160,7 @@ def stepIssue (d : DState) (toks : List String) : DState × String :=
                              impersonated := metaStr imp, certSigner := metaStr signer,
                              otherMeta := (List.range (parseInt junk).toNat).map (fun i => (toString i, "junk")) }
       let srv := Server.new ca d.trusted d.clusters
-      let now := d.clock + sec
+      let now := d.clock + tick
       ({ d with clock := now }, showIssue srv req (createCertificate repoFixes id srv c os req now))
   | _ => (d, "bad-op")
 
@@ -242,9 +245,19 @@ def authValsOf (form tok : String) : List String :=
   else if form == "two2" then ["Bearer " ++ tok, "Bearer " ++ otherToken]
   else []
 
+/-- the fixed test PKI of the harness: intermediates by name -/
+def caCertOf (n : String) : Option CACert :=
+  if n == "I1" then some { name := "I1", issuer := "R1" }
+  else if n == "I2" then some { name := "I2", issuer := "R2" }
+  else if n == "I3" then some { name := "I3", issuer := "I1" }
+  else if n == "IE" then some { name := "IE", issuer := "R1", timeOk := false }
+  else if n == "INC" then some { name := "INC", issuer := "R1", isCA := false }
+  else none
+
 /-- what the evaluation of one authenticator spec gives: result, trailer of the output line, and
     the transport-level facts `security.Authenticate` reads (peer present, TLS auth info) -/
 structure SpecRes where
+  rejected : Bool := false   -- TLS handshake refused
   res     : AuthRes
   trailer : String := ""
   hasPeer : Bool := true
@@ -287,12 +300,31 @@ def evalSpec (toks : List String) (clusterOverride : Option (Option (List String
       | some hp => hp.2
       | none => none
     some { res := xfccAuthenticate (decList cidrs) addr hs parse, hasPeer := peerAddr != "nopeer" }
+  | ["tlscert", _tr, pools, leaf, ints] =>
+    let ps : List (String × List String) := (decList pools).map (fun p =>
+      match p.splitOn "=" with
+      | [td, roots] => (td, roots.splitOn "+")
+      | _ => (p, []))
+    let peer : Option (PLeaf × List CACert) :=
+      if leaf == "nocert" then none
+      else
+        let f := decFields (dec leaf)
+        let sans := (decList (fieldAt f 1)).map (fun e =>
+          (((e.take 1).toString), if e.startsWith "I:" then bytesStr (hexBytes ((e.drop 2).toString.toList))
+                                  else bytesStr ((e.drop 2).toString.toUTF8.toList.map (·.toNat))))
+        let eku : EKU := if fieldAt f 3 == "client" then .client else if fieldAt f 3 == "server" then .server
+                         else if fieldAt f 3 == "none" then .none else .both
+        some ({ issuer := fieldAt f 0, sans := sans, timeOk := fieldAt f 2 == "ok", eku := eku }, (decList ints).filterMap caCertOf)
+    match tlsCertAuthenticate ps peer with
+    | none => some { rejected := true, res := .err }
+    | some r => some { res := r, bytes := true }
   | ["cert", _tr, kind, chains] =>
     let k : PeerKind := if kind == "tls" then .tls else if kind == "noauth" then .noAuth else if kind == "other" then .other else .noPeer
     some { res := certAuthenticate k ((decList chains).map chainOf), hasPeer := kind != "nopeer", tls := kind == "tls", bytes := true }
   | _ => none
 
 def showSpecRes (r : SpecRes) : String :=
+  if r.rejected then "reject" else
   match r.res with
   | .ok c =>
     if r.bytes then s!"ok ids={encListBytes c.identities} kube={showKube c.kube}" ++ r.trailer
@@ -317,12 +349,13 @@ def stepReqA (d : DState) (toks : List String) : DState × String :=
       match evalSpec (words (dec spec)) (some clusterIDs) with
       | none => (d, "bad-op")
       | some r =>
+        if r.rejected then (d, "reject") else
         let c : Ctx := { xdsAuth := true, hasPeer := r.hasPeer, tls := r.tls, authPlaintext := false, clusterIDs := clusterIDs }
         let req : Request := { csr := csrOfFields (decFields (dec csr)), validity := parseInt ttl,
                                impersonated := metaStr imp, certSigner := metaStr signer,
                                otherMeta := (List.range (parseInt junk).toNat).map (fun i => (toString i, "junk")) }
         let srv := Server.new ca d.trusted d.clusters
-        let now := d.clock + sec
+        let now := d.clock + tick
         ({ d with clock := now }, showIssue srv req (createCertificateFull repoFixes id srv c [r.res] req now))
   | _ => (d, "bad-op")
 
